@@ -1,5 +1,6 @@
 import JxlModel.Proofs.Bundle
 import JxlModel.Proofs.Headers
+import JxlModel.Proofs.F16
 import JxlModel.Model.Headers
 import JxlModel.Gen.Headers
 /-!
@@ -62,7 +63,7 @@ example : (writeU64With 10 (2 ^ 64 - 1)).length = 73 := by decide
 example : u64CanWrite 9 0 = true ∧ u64CanWrite 3 4095 = true ∧ u64CanWrite 5 (2 ^ 28 - 1) = true := by decide
 
 /-- `F16`: every 16-bit pattern that is not NaN/Infinity is read back as the same pattern
-(the conversion of the pattern to `f32` is compared with the code by execution, not proved) -/
+(the value of the reported `f32`: `C14_f16_value_exact`) -/
 theorem C14_f16_bits_roundtrip (b : Nat) (rest : Bits) (sc : Env) (total : Nat) (h : f16Valid b = true) :
     parseTy total sc .f16 (toBits 16 b ++ rest) = .ok (.f16 b, rest) := by
   have hlt : b < 2 ^ 16 := by simp [f16Valid] at h; exact h.1
@@ -76,6 +77,43 @@ theorem C14_f16_rejects_nonfinite (b : Nat) (rest : Bits) (sc : Env) (total : Na
 
 example : f16Valid 0x0001 = true ∧ f16Valid 0x83ff = true ∧ f16Valid 0x7bff = true ∧
     f16Valid 0x7c00 = false ∧ f16Valid 0xfe01 = false := by decide
+
+/-- `F16` → `f32`, the value: for every finite binary16 pattern `b`, the binary32 pattern the
+decoder reports (`f16ToF32Bits`, the integer transcription of `read_f16_as_f32`) denotes the same
+real number. Both sides are read by the IEEE-754 field definition as integer multiples of a power
+of two — `f16Scaled b · 2^-24` and `f32Scaled x · 2^-149` — so equality of the numbers is
+`f32Scaled x = f16Scaled b · 2^125`. The result is a finite pattern (biased exponent ≠ 255) and
+fits 32 bits. Zero keeps its sign, subnormals (`m·2^-24`) become normal binary32 numbers. -/
+theorem C14_f16_value_exact (b : Nat) (h : f16Valid b = true) :
+    f32Scaled (f16ToF32Bits b) = f16Scaled b * 2 ^ 125 ∧
+      f16ToF32Bits b / 0x800000 % 256 ≠ 255 ∧ f16ToF32Bits b < 2 ^ 32 :=
+  f16_value_exact b h
+
+-- smallest subnormal 2^-24, largest negative subnormal, 1.0, −0, most negative finite value
+example : f16ToF32Bits 0x0001 = 0x33800000 ∧ f32Scaled 0x33800000 = 2 ^ 125 ∧ f16Scaled 0x0001 = 1 := by decide
+example : f16ToF32Bits 0x83ff = 0xb87fc000 ∧ f16Scaled 0x83ff = -1023 ∧
+    f16ToF32Bits 0x3c00 = 0x3f800000 ∧ f16Scaled 0x3c00 = 2 ^ 24 ∧
+    f16ToF32Bits 0x8000 = 0x80000000 ∧ f16ToF32Bits 0xfbff = 0xc77fe000 ∧
+    f16Scaled 0xfbff = -(65504 * 2 ^ 24) := by decide
+
+/-- the conversion loses nothing: two finite binary16 patterns with the same reported binary32
+pattern are the same pattern (in particular `+0 = 0x0000 ↦ 0x00000000` and
+`−0 = 0x8000 ↦ 0x80000000` stay apart, the only two patterns with equal value) -/
+theorem C14_f16_conversion_injective_up_to_zero (a b : Nat) (ha : f16Valid a = true)
+    (hb : f16Valid b = true) (hab : f16ToF32Bits a = f16ToF32Bits b) : a = b :=
+  f16ToF32Bits_injective a b ha hb hab
+
+example : f16Valid 0x0000 = true ∧ f16Valid 0x8000 = true ∧ f16ToF32Bits 0x0000 ≠ f16ToF32Bits 0x8000 ∧
+    f16Scaled 0x0000 = f16Scaled 0x8000 := by decide
+
+/-- … and on *values*: two finite binary16 patterns whose reported binary32 patterns denote the
+same real number are the same pattern, or are the two zeros (`0x0000`, `0x8000`) -/
+theorem C14_f16_value_injective_up_to_zero (a b : Nat) (ha : f16Valid a = true)
+    (hb : f16Valid b = true) (hab : f32Scaled (f16ToF32Bits a) = f32Scaled (f16ToF32Bits b)) :
+    a = b ∨ (a % 32768 = 0 ∧ b % 32768 = 0) :=
+  f16_value_injective_up_to_zero a b ha hb hab
+
+example : f32Scaled (f16ToF32Bits 0x0000) = f32Scaled (f16ToF32Bits 0x8000) ∧ 0x8000 % 32768 = 0 := by decide
 
 /-- `read_enum`: a discriminant of the enum's domain is read back whichever selector wrote it;
 anything outside the domain is `InvalidEnum` -/
@@ -139,6 +177,44 @@ theorem C14_toc_plain_roundtrip (n : Nat) (t : Env) (choice : Nat → Nat) (pos 
     (hw : writeAt tocPlain choice [("entry_count", .nat n)] pos t = some bits) :
     parseAt tocPlain [("entry_count", .nat n)] pos (bits ++ rest) = .ok (t, rest) :=
   C14_bundle_roundtrip tocPlain _ t choice pos bits rest hc hw
+
+/-- table of contents **with** permutation, end to end through `writeToc` / `parseToc` (`Toc::parse`):
+flag, entropy-coded Lehmer code, padding, sizes, padding. The entropy coder is a parameter: `enc` is
+any bit string that the decoder `dec` (for `entry_count = sizes.length`) reads back as `lehmer`
+leaving what follows it untouched — that hypothesis is exactly C04's round-trip theorem for the
+stream written by `encodePermutation`. Then for every selector choice, bit position and
+continuation `rest`, the parser reports the sizes as written, the permutation of that Lehmer code,
+the byte offset of the first section, and stops at the writer's last bit. (`writeToc` succeeds only
+if `entry_count ≤ 65536` and every size is a value of the size distribution.) -/
+theorem C14_toc_permuted_roundtrip (dec : PermDecoder) (choice : Nat → Nat)
+    (pos numGroups numLfGroups : Nat) (sizes lehmer : List Nat) (enc bits rest : Bits)
+    (hdec : ∀ r, dec sizes.length (enc ++ r) = .ok (lehmer, r))
+    (hw : writeToc choice pos sizes (some enc) = some bits) :
+    parseToc dec (pos + (bits ++ rest).length) numGroups numLfGroups sizes.length (bits ++ rest) =
+      .ok ({ entryCount := sizes.length, numLfGroups := numLfGroups, numGroups := numGroups,
+             permuted := true, perm := lehmerToPerm sizes.length lehmer, sizes := sizes,
+             base := (pos + bits.length) / 8 }, rest) :=
+  parseToc_writeToc_permuted dec choice pos numGroups numLfGroups sizes lehmer enc bits rest hdec hw
+
+-- the coder hypothesis is satisfiable: the hand-made trivial code (`trivialPermDecoder`, the one the
+-- differential run uses) on the stream `trivialPermWrite 5 [0, 1, 2, 3] [3, 0, 2]`, 5 sections with
+-- sizes from all four selectors, TOC starting at bit 3
+example : trivialPermWrite 5 [0, 1, 2, 3] [3, 0, 2] = some demoPermBits ∧
+    (∀ r, trivialPermDecoder 5 (demoPermBits ++ r) = .ok ([3, 0, 2], r)) ∧
+    lehmerValid 5 [3, 0, 2] = true :=
+  ⟨demoPermBits_eq, trivialPermDecoder_demo, by decide⟩
+
+example : (writeToc (fun p => p) 3 [10, 2000, 0, 5000000, 70000] (some demoPermBits)).isSome = true := by
+  decide +kernel
+
+example (bits rest : Bits)
+    (hw : writeToc (fun p => p) 3 [10, 2000, 0, 5000000, 70000] (some demoPermBits) = some bits) :
+    parseToc trivialPermDecoder (3 + (bits ++ rest).length) 2 1 5 (bits ++ rest) =
+      .ok ({ entryCount := 5, numLfGroups := 1, numGroups := 2, permuted := true,
+             perm := [3, 0, 4, 1, 2], sizes := [10, 2000, 0, 5000000, 70000],
+             base := (3 + bits.length) / 8 }, rest) :=
+  C14_toc_permuted_roundtrip trivialPermDecoder _ 3 2 1 [10, 2000, 0, 5000000, 70000] [3, 0, 2]
+    demoPermBits bits rest trivialPermDecoder_demo hw
 
 /-! ## derived values -/
 
@@ -208,6 +284,21 @@ theorem C14_toc_permutation_inverse (size : Nat) (lehmer : List Nat) (hv : lehme
 example : lehmerValid 5 [3, 0, 2] = true ∧ lehmerToPerm 5 [3, 0, 2] = [3, 0, 4, 1, 2] ∧
     invPerm [3, 0, 4, 1, 2] = [1, 3, 4, 0, 2] := by decide
 
+/-- `C14_toc_permuted_roundtrip` and `C14_toc_permutation_inverse` together: when the Lehmer code
+is one `read_permutation` accepts, the order the parser reports for the written TOC is a
+permutation of the sections and `bitstream_to_original` is its inverse -/
+theorem C14_toc_permuted_order (dec : PermDecoder) (choice : Nat → Nat)
+    (pos numGroups numLfGroups : Nat) (sizes lehmer : List Nat) (enc bits rest : Bits)
+    (hdec : ∀ r, dec sizes.length (enc ++ r) = .ok (lehmer, r))
+    (hw : writeToc choice pos sizes (some enc) = some bits)
+    (hv : lehmerValid sizes.length lehmer = true) :
+    ∃ t, parseToc dec (pos + (bits ++ rest).length) numGroups numLfGroups sizes.length (bits ++ rest) =
+        .ok (t, rest) ∧ t.sizes = sizes ∧ t.perm.Perm (List.range sizes.length) ∧
+      ∀ j (hj : j < t.perm.length), t.bitstreamToOriginal[t.perm[j]]? = some j :=
+  ⟨_, C14_toc_permuted_roundtrip dec choice pos numGroups numLfGroups sizes lehmer enc bits rest hdec hw,
+    rfl, (C14_toc_permutation_inverse sizes.length lehmer hv).1,
+    (C14_toc_permutation_inverse sizes.length lehmer hv).2⟩
+
 /-! ## a deviation of the code's description from the format
 
 Everything above is about the descriptions extracted from the code. Whether a description is the
@@ -230,17 +321,20 @@ theorem C14_preview_header_ratio_witness :
 
 /-! ## what is not proved here (partial scope)
 
-* **F16 → f32.** The theorems are about the 16-bit *pattern* (`C14_f16_bits_roundtrip`). The value
-  the decoder reports is `f32::from_bits`-level arithmetic in `read_f16_as_f32`; the model's
-  `f16ToF32Bits` is an exact integer version of it. Wanted and not proved:
-  `∀ b, f16Valid b → (f16ToF32Bits b as IEEE binary32) = (b as IEEE binary16)`. Tie: all 2^16
-  patterns are run through the real conversion and the model on every check.
-* **Permuted TOC.** `C14_toc_plain_roundtrip` covers `permuted = false` end to end;
-  `C14_toc_permutation_inverse` covers what happens *after* the entropy decoder (Lehmer code →
-  permutation → inverse → order). The full statement
-  `parseToc dec … (writeToc … (some (encodePerm lehmer)) ++ rest) = ok (toc, rest)` needs the
-  entropy coder round trip `dec n (encodePerm lehmer ++ r) = ok (lehmer, r)`, which is C04's
-  theorem. The differential run covers permuted TOCs written with a hand-made trivial code.
+* **F16 → f32.** Proved on the model: `C14_f16_value_exact` (the binary32 pattern `f16ToF32Bits b`
+  denotes the same real number as the binary16 pattern `b`, is finite and fits 32 bits) and
+  `C14_f16_conversion_injective_up_to_zero` / `C14_f16_value_injective_up_to_zero`.
+  Not proved: that `f16ToF32Bits` *is* `read_f16_as_f32`. The normal and zero branches of the Rust are integer bit operations
+  transcribed one to one; the subnormal branch is `f32` arithmetic
+  (`(1.0 / 16384.0) * (mantissa as f32 / 1024.0)`), argued exact on paper in the doc comment of
+  `f16ToF32Bits` (no formal model of binary32 rounding here). Tie: all 2^16 patterns are run
+  through the real conversion and the model on every check.
+* **Permuted TOC.** `C14_toc_permuted_roundtrip` / `C14_toc_permuted_order` cover `permuted = true`
+  end to end through `writeToc` / `parseToc` *relative to* the entropy coder: the hypothesis
+  `∀ r, dec n (enc ++ r) = ok (lehmer, r)` is C04's round-trip theorem and is not discharged here
+  for the real ANS / prefix decoder (only for the hand-made trivial code on a concrete stream, see
+  the `example`s). `parseToc` is parameterised by the decoder for that reason. The differential
+  run covers permuted TOCs written with the trivial code.
 * **Hand-written parsers** are hand-modelled descriptions; their tie to the source is the
   extracted primitive-read sequences / distributions / domains / hashes
   (`C14_hand_model_matches_source`) and the differential run, not a translation.
